@@ -87,6 +87,8 @@ def shards(plan, extra=()):
             out.append({'layer': 'order'})
         elif e == 'samples':
             out.append({'layer': 'samples'})
+        elif e == 'long':
+            out.append({'layer': 'long'})
         elif e == 'sibs':
             for i in range(4):
                 out.append({'layer': 'sibs', 'i': i, 'k': 4})
@@ -124,6 +126,9 @@ def iter_docs(shard):
                 yield d
     elif layer == 'order':
         yield from order_docs()
+    elif layer == 'long':
+        for items in long_docs():
+            yield gram.render(items), items
     elif layer == 'sibs':
         for j, d in enumerate(sibs_docs()):
             if j % shard.get('k', 1) == shard.get('i', 0):
@@ -333,6 +338,24 @@ def sibs_docs():
         for k in 'ceg':
             items = tuple(unit[k] for _ in range(count))
             yield gram.render(items), items
+
+
+# ---------------------------------------------------------------------------------------------
+# long layer: a few documents far beyond the node bounds (thresholds in counts, lengths and offsets)
+
+def long_docs():
+    a = alpha('full')
+    N = a.N
+    cmd = ('C', N.x, (('G{', (('T', N.a),)),), ())
+    items = []
+    for j in range(300):
+        items += [cmd, ('T', N.o)]
+    yield tuple(items)                                                  # 300 commands, 300 texts: offsets > 1500
+    yield (('G{', (('T', N.a * 3000),)),)                               # one text run of 3000 characters
+    yield (('C', N.x, tuple(('G{', (('T', N.a),)) for _ in range(70)), ()),)   # 70 arguments
+    yield (('E', 'itemize', (), tuple(('C', 'item', (), (('T', ' ' + N.a + '\n'),)) for _ in range(100))),)
+    yield (('T', (N.a + '\n') * 400), cmd)                              # 400 lines before a command
+    yield tuple(('M', '$', (('T', N.a),)) if j % 2 == 0 else ('T', ' ' + N.b + ' ') for j in range(200))
 
 
 # ---------------------------------------------------------------------------------------------
